@@ -54,6 +54,56 @@ const NUMBERS: [(&str, &str); 25] = [
     ("9007199254740993", "9007199254740992"), ("9223372036854775807", "9223372036854776000"), ("-9007199254740993", "-9007199254740992"),
 ];
 
+/// ECMAScript `Number::toString` of a finite double (ECMA-262 7.1.12.1): the FEWEST digits that
+/// identify the double; among those the digit string closest to its exact value, the even one on a
+/// tie; then the notation rules.  Written from the standard over the exact decimal expansion of the
+/// double (Rust prints doubles exactly at high precision) -- independent of ryu-js.
+fn es6(f: f64) -> String {
+    if f == 0.0 { return "0".into(); }
+    let a = f.abs();
+    let exact = format!("{:.1100e}", a);
+    let (m, e) = exact.split_once('e').unwrap();
+    let e: i32 = e.parse().unwrap();
+    let all: Vec<u8> = m.bytes().filter(|c| *c != b'.').map(|c| c - b'0').collect();
+    let render = |ds: &[u8], e10: i32| -> String { format!("{}.{}e{}", ds[0], ds[1..].iter().map(|d| d.to_string()).collect::<String>() + "0", e10) };
+    let mut chosen: Option<(Vec<u8>, i32)> = None;
+    for k in 1..=17usize {
+        let lo: Vec<u8> = all[..k].to_vec();
+        // hi = lo + 1 unit in the last place (may carry into a new leading digit)
+        let mut hi = lo.clone(); let mut i = k; let mut ehi = e;
+        loop { if i == 0 { hi.insert(0, 1); hi.pop(); ehi += 1; break; } i -= 1; if hi[i] == 9 { hi[i] = 0; } else { hi[i] += 1; break; } }
+        let ok_lo = render(&lo, e).parse::<f64>().unwrap() == a;
+        let ok_hi = render(&hi, ehi).parse::<f64>().unwrap() == a;
+        let rest = &all[k..];
+        let cmp_half = { // compare 0.rest with 0.5
+            if rest.is_empty() || rest.iter().all(|d| *d == 0) { std::cmp::Ordering::Less }
+            else if rest[0] > 5 || (rest[0] == 5 && rest[1..].iter().any(|d| *d != 0)) { std::cmp::Ordering::Greater }
+            else if rest[0] == 5 { std::cmp::Ordering::Equal } else { std::cmp::Ordering::Less }
+        };
+        chosen = match (ok_lo, ok_hi) {
+            (true, true) => Some(match cmp_half { std::cmp::Ordering::Less => (lo, e), std::cmp::Ordering::Greater => (hi, ehi), std::cmp::Ordering::Equal => if lo[k - 1] % 2 == 0 { (lo, e) } else { (hi, ehi) } }),
+            (true, false) => Some((lo, e)),
+            (false, true) => Some((hi, ehi)),
+            (false, false) => None,
+        };
+        if chosen.is_some() { break; }
+    }
+    let (mut ds, e) = chosen.expect("17 digits always identify a double");
+    while ds.len() > 1 && *ds.last().unwrap() == 0 { ds.pop(); }
+    let digits: String = ds.iter().map(|d| d.to_string()).collect();
+    let k = digits.len() as i32;
+    let n = e + 1; // value = 0.digits x 10^n
+    let body = if k <= n && n <= 21 { format!("{}{}", digits, "0".repeat((n - k) as usize)) }
+        else if 0 < n && n <= 21 { format!("{}.{}", &digits[..n as usize], &digits[n as usize..]) }
+        else if -6 < n && n <= 0 { format!("0.{}{}", "0".repeat((-n) as usize), digits) }
+        else { let ex = n - 1; let es = format!("{}{}", if ex >= 0 { "+" } else { "-" }, ex.abs()); if k == 1 { format!("{}e{}", digits, es) } else { format!("{}.{}e{}", &digits[..1], &digits[1..], es) } };
+    if f < 0.0 { format!("-{}", body) } else { body }
+}
+
+/// the RFC 8785 rendering of a JSON number spelling: the double NEAREST to the exact decimal value
+/// (Rust's `str::parse::<f64>` is correctly rounded), rendered as ECMAScript does
+fn ref_number(spelling: &str) -> String { es6(spelling.parse::<f64>().unwrap()) }
+
 fn canon_text(v: &RefValue) -> String { let mut r = to_real(v); r.canonicalize(); r.compact_print().to_string() }
 
 fn canonical(prop: &str, thorough: bool, seed: u64, rep: &mut Report) {
@@ -72,6 +122,54 @@ fn canonical(prop: &str, thorough: bool, seed: u64, rep: &mut Report) {
             let got = canon_text(&RefValue::Num(spelling.to_string()));
             rep.eval(true, fnv(spelling.as_bytes()));
             if &got != want { rep.violation("number rendering (dependency: json-number/ryu-js)", &format!("number:{}", spelling), spelling.to_string(), format!("real={} expected={}", got, want)); }
+            if &ref_number(spelling) != want { rep.violation("(reference self-check) es6 rendering of the RFC table", "refself", spelling.to_string(), ref_number(spelling)); }
+        }
+        // long decimals (more digits than a double holds), exponent shifts, near-halfway spellings,
+        // the thresholds of the exponential notation, subnormals: the double must be the NEAREST one
+        rep.checks.push("C09: numbers with 17..40 significant digits, near-halfway decimals, notation thresholds == nearest double, ECMAScript rendering".into());
+        let mut cases: Vec<String> = vec!["1e21".into(), "999999999999999999999".into(), "1000000000000000000000".into(), "0.000001".into(), "0.0000009999999999999999".into(), "1e-6".into(), "1e-7".into(),
+            "4.9e-324".into(), "2.4703282292062328e-324".into(), "2.4703282292062327e-324".into(), "2.2250738585072011e-308".into(), "1.7976931348623158e308".into(), "9007199254740993".into(),
+            "9007199254740992.5".into(), "9007199254740993.0000000000000000001".into(), "0.1000000000000000055511151231257827021181583404541015625".into(), "0.30000000000000004".into(),
+            "62366.589399033819066834200497105".into(), "2301321284722629935389".into(), "63868144857173796.005437586005".into()];
+        let m = if thorough { 60_000 } else { 12_000 };
+        for _ in 0..m {
+            let nd = 17 + rng.below(24);
+            let mut digs: String = (0..nd).map(|_| (b'0' + rng.below(10) as u8) as char).collect();
+            while digs.starts_with('0') && digs.len() > 1 { digs.remove(0); }
+            let p = rng.below(digs.len() + 1);
+            let mut sp = if p == 0 { format!("0.{}", digs) } else if p == digs.len() { digs.clone() } else { format!("{}.{}", &digs[..p], &digs[p..]) };
+            if rng.below(3) == 0 { sp = format!("{}e{}", sp, rng.below(61) as i64 - 30); }
+            if rng.below(5) == 0 { sp = format!("-{}", sp); }
+            cases.push(sp);
+        }
+        // halfway points between adjacent doubles, spelled exactly and nudged by one unit in the last place
+        for _ in 0..(if thorough { 4000 } else { 800 }) {
+            let bits = (rng.next() >> 12) | ((1000 + rng.below(100) as u64) << 52);
+            let a = f64::from_bits(bits);
+            let b = f64::from_bits(bits + 1);
+            if !a.is_finite() || !b.is_finite() { continue; }
+            // (a + b) / 2 has one more bit than a double: print it exactly through two doubles' decimal expansions
+            let exact = |x: f64| -> String { format!("{:.80}", x) };
+            let (sa, sb) = (exact(a), exact(b));
+            // decimal midpoint by digit arithmetic on the fixed-point expansions (same length, same point position)
+            let (ia, ib): (Vec<u8>, Vec<u8>) = (sa.bytes().filter(|c| *c != b'.').map(|c| c - b'0').collect(), sb.bytes().filter(|c| *c != b'.').map(|c| c - b'0').collect());
+            if ia.len() != ib.len() { continue; }
+            let mut sum = vec![0u8; ia.len() + 1]; let mut carry = 0u8;
+            for i in (0..ia.len()).rev() { let t = ia[i] + ib[i] + carry; sum[i + 1] = t % 10; carry = t / 10; }
+            sum[0] = carry;
+            // halve (append a digit for the possible .5)
+            let mut half = vec![]; let mut rem = 0u8; for d in sum.iter().chain([0u8].iter()) { let cur = rem * 10 + d; half.push(cur / 2); rem = cur % 2; }
+            let point = sa.find('.').unwrap() + 1; // one more integer digit from the carry
+            let mid: String = half.iter().enumerate().map(|(i, d)| if i == point { format!(".{}", d) } else { d.to_string() }).collect();
+            let mid = mid.trim_start_matches('0').to_string(); let mid = if mid.starts_with('.') { format!("0{}", mid) } else { mid };
+            cases.push(mid.clone()); cases.push(format!("{}1", mid));
+        }
+        for sp in cases {
+            if !sp.parse::<f64>().map(|f| f.is_finite()).unwrap_or(false) { continue; }
+            let got = canon_text(&RefValue::Num(sp.clone()));
+            let want = ref_number(&sp);
+            rep.eval(true, fnv(sp.as_bytes()));
+            if got != want { rep.violation("number rendering == ECMAScript rendering of the NEAREST double", "number-nearest", sp.clone(), format!("real={} expected={}", got, want)); }
         }
     }
     let n = if thorough { 40_000 } else { 6_000 };
